@@ -9,4 +9,6 @@ git -C /repo checkout -- .
 echo "seed=$NAME check=$CHECK tier=$TIER rc=$rc"; grep -E "^VIOLATION|KNOWN-FINDING|INCONCLUSIVE|BUILD-FAILED|signature:" /tmp/agent/seedtest_${NAME}_${CHECK}.log | cut -c1-220 | head -20
 # restore evidence produced on the patched tree: it must not be committed
 git -C /verif checkout -- evidence 2>/dev/null
+# rebuild the harness from the clean tree so that later --no-build runs do not use the patched worker
+(cd /verif && python3 -c "from mon import common; common.build_harness(verbose=False)")
 exit $rc
